@@ -497,8 +497,18 @@ def firstPass (meth : Method) (a : DMap) : DMap :=
   | .mccnn => occlMc a
   | .sgm => mismSgm a
 
+/-- the code is expected to behave as the statement says at pixel `(r, c)`: the pixel is not in one of
+    the "fills from nothing" situations (`mid` = the map after the first pass) -/
+def okAt (meth : Method) (a mid : DMap) (r c : Nat) : Bool :=
+  match meth, kindOf meth a r c with
+  | .mccnn, .mism => !anyRunOff mid r c && !(nums (sourcesMc mid r c)).isEmpty
+  | .sgm, .mism => !(nums (sourcesSgm a r c)).isEmpty
+  | .sgm, .occl => decide (2 ≤ (nums (sourcesSgm mid r c)).length)
+  | .sgm, .mismAsOccl => decide (2 ≤ (nums (sourcesSgm mid r c)).length)
+  | _, _ => true
+
 /-- no flagged pixel is in one of the situations above -/
 def noTrigger (meth : Method) (a : DMap) : Bool :=
-  allPx a fun r c => triggerAt meth a (firstPass meth a) r c == ""
+  allPx a fun r c => okAt meth a (firstPass meth a) r c
 
 end Pandora.Interp
